@@ -170,7 +170,8 @@
    const char * StartSetText() const
    {
       switch (startSet) {
-      case SS_BOUND: return "table brought by EnsureSize to c slots, c in {253,254,255,256[,127,128]}, holding c-1 or c entries, so that one or two more Puts regrow it across the 8-bit/16-bit slot-index boundary (table size 255), and a 300-slot table holding 254/255 entries that ShrinkToFit brings back below it; iterators A (forward) and B (backward) parked at head/middle/tail";
+      case SS_BOUND: case SS_BOUNDW: case SS_BOUNDD: return "table brought by EnsureSize to c slots, c in {253,254,255,256[,127,128]}, holding c-1 or c entries, so that one or two more Puts regrow it across the 8-bit/16-bit slot-index boundary (table size 255), and a 300-slot table holding 254/255 entries that ShrinkToFit brings back below it; iterators A (forward) and B (backward) parked at head/middle/tail";
+      case SS_HUGED: return "table brought by EnsureSize to 65534 / 65535 slots and filled completely (the next new key regrows it; 65534 -> 131068 crosses from 16-bit to 32-bit slot indices), iterators A/B parked in the middle";
       case SS_HUGE: return "table brought by EnsureSize to c slots, c in {65533..65536}, holding c-1 or c entries (regrow across the 16-bit/32-bit slot-index boundary at table size 65535) and a 70000-slot table holding 65534/65535 entries shrunk back; iterators A/B parked in the middle";
       case SS_ALIAS: return "populations 6 and 7 of the default 7-slot table";
       default: return "empty table of default capacity 7; populations 6, 7 (full: next new key regrows) and 8 (after the first regrow), the full one also with iterators A (forward) and B (backward) parked at head/middle/tail";
